@@ -53,6 +53,20 @@ CHECKS = {
         COSCHED_NOTE,
         "DESIGN.md section 2.1 and section 4, C02",
     ),
+    "C03": (
+        "cosched",
+        "stateless exhaustive schedule exploration of the real runtime with iterative "
+        "deviation bounding",
+        "Submitting context (outside thread, thread / asyncio / trio payload) x target flavour "
+        "x adopt or service creation x argument tuples/dicts x submission time, queued payloads "
+        "and services 0..2 per flavour, pairs of concurrent submitters, and adopt racing a "
+        "shutdown whose cleanup window is held open by a shielded payload; every schedule "
+        "within 1 (quick) / 2 (thorough) deviations over >= 5 polling cycles. Oracle from the "
+        "payloads' own start events: exactly once, exact arguments, right runner context; "
+        "adopt returns None and never raises while cleanup is in progress.",
+        COSCHED_NOTE,
+        "DESIGN.md section 2.1 and section 4, C03",
+    ),
     "C17": (
         "smallscope",
         "bounded-exhaustive input enumeration against an independent line-protocol parser",
